@@ -44,7 +44,7 @@ func cleanup(dir string) {
 func tableCells() []string {
 	var out []string
 	for _, k := range frameKinds {
-		for _, m := range tableModes {
+		for _, m := range modesOf(k) {
 			out = append(out, "cell_"+k+"_"+m)
 		}
 	}
@@ -201,7 +201,7 @@ func main() {
 	}
 
 	must := append(tableCells(),
-		"twin_pairs_nontrivial", "twin_controls_effective", "static_subtrees_nontrivial", "twin_frames_failed_observed",
+		"twin_pairs_nontrivial", "twin_revisit_pairs_nontrivial", "twin_multitx_pairs_nontrivial", "twin_controls_effective", "static_subtrees_nontrivial", "twin_frames_failed_observed",
 		"scratch_start_observations", "scratch_starts_after_dirty_tx", "scratch_end_transient_nonzero", "scratch_end_accesslist_addr",
 		"scratch_end_accesslist_slot", "scratch_end_logs", "scratch_tload_results_checked", "scratch_receipts_checked", "scratch_receipt_logs_seen",
 		"scratch_tx_executor", "scratch_tx_direct", "legacy013_receipts_checked", "legacy013_receipt_logs_seen")
